@@ -363,6 +363,8 @@ type c08Session struct {
 func runC08(c *ctx) {
 	for i := 0; i < 3; i++ {
 		routeOverlap(c)
+		routeAcrossPush(c)
+		routeAcrossPush(c)
 	}
 	g := &c08gen{r: c.rng}
 	n := 2500 * c.budget
@@ -662,4 +664,41 @@ func routeOverlap(c *ctx) {
 	c.emit(obj{"op": "route", "grpc": false, "md": []interface{}{[]interface{}{"k1", "v1"}}, "extractor": "custom",
 		"inv":      obj{"pkg": "pkg", "svc": "svc", "method": "alpha", "toMethod": "alpha"},
 		"listener": obj{"filters": filtersJSON(fs)}, "named": obj{"rc-a": cfg.json()}, "rx": rx, "obs": oA, "overlap": true})
+}
+
+// routeAcrossPush: one router, one destination whose listener names a route table; while the router reads the table for
+// the first call, a new version of the table is pushed (handlers, then data). The first call is routed by the table it
+// read; every later call by the new table - whatever the router remembers of the old one.
+func routeAcrossPush(c *ctx) {
+	mk := func(cluster string, t int) *gCfg {
+		return &gCfg{HasHTTP: true, HTTP: []*gVHost{{Name: "vh", Routes: []*gRoute{{Kind: "http", Prefix: "/", Clusters: [][2]interface{}{{cluster, 1}}, TimeoutMs: t}}}}}
+	}
+	oldCfg, newCfg := mk("before-the-push", 100), mk("after-the-push", 200)
+	fs := []*gFilter{{RcName: "rc-a"}}
+	stub := newStub()
+	useBackend(stub)
+	stub.res[stubKey{xdsresource.ListenerType, "dest"}] = buildListener(fs)
+	stub.res[stubKey{xdsresource.RouteConfigType, "rc-a"}] = oldCfg.build()
+	router := xdssuite.NewXDSRouter() // (a router may register update handlers with the manager: the stub runs them on the push)
+	stub.afterGet = map[stubKey]interface{}{{xdsresource.RouteConfigType, "rc-a"}: newCfg.build()}
+	for i := 0; i < 4; i++ {
+		to := rpcinfo.NewEndpointInfo("dest", "m", nil, nil)
+		ri := rpcinfo.NewRPCInfo(nil, to, rpcinfo.NewInvocation("svc", "m", "pkg"), rpcinfo.NewRPCConfig(), nil)
+		var res *xdssuite.RouteResult
+		var err error
+		p, pmsg := recoverTo(func() { res, err = router.Route(context.Background(), ri) })
+		o := obj{"panic": p, "panicMsg": pmsg, "err": classifyRouteErr(err), "cluster": nil, "timeoutMs": 0}
+		if !p && err == nil && res != nil {
+			o["cluster"] = res.ClusterPicked
+			o["timeoutMs"] = int(res.RPCTimeout / time.Millisecond)
+		}
+		inForce := newCfg
+		if i == 0 {
+			inForce = oldCfg
+		}
+		c.count("route-across-push", 1)
+		c.emit(obj{"op": "route", "grpc": false, "md": []interface{}{}, "extractor": "default",
+			"inv":      obj{"pkg": "pkg", "svc": "svc", "method": "m", "toMethod": "m"},
+			"listener": obj{"filters": filtersJSON(fs)}, "named": obj{"rc-a": inForce.json()}, "rx": []interface{}{}, "obs": o, "acrossPush": i})
+	}
 }
